@@ -6,9 +6,9 @@ CONSTANTS
   Lives = {0, 2}
   Serial = {FALSE, TRUE}
   Trashing = {TRUE}
-  WKinds = {"none", "put", "touch"}
+  WKinds = {"none", "put", "touch", "pull", "pull_any"}
   TKinds = {"none", "delete", "list_eq", "list_stale"}
-  XKinds = {"none", "untrash", "empty"}
+  XKinds = {"none", "untrash", "empty", "index"}
   MaxActors = 2
   PreSet = {"none", "intact_old", "intact_young", "corrupt_old"}
   PreTrash = {"none", "live", "expired"}
